@@ -36,15 +36,27 @@
       `heralded_cz_anywhere`), and circuits of heralded CZs end to end (`heralded_cz_circuit`);
     * the DFS `_is_cyclic` = not `Forest` (`is_cyclic_dfs_eq_not_forest`, `is_cyclic_dfs_node_map`);
     * Ryser's formula = `Matrix.permanent` (`ryser_eq_permanent`, `evalAmp_eq_spec`).
+  Round 4 (sections "(5)".."(7)" at the end), proved for all inputs:
+    * the heralded CNOT exactly as the catalog builds it (`BS.H` · heralded CZ · `BS.H`): table `c • CNOT` with
+      `27c² = 2`, zero leakage, anywhere in a processor (`heralded_cnot_exact`, `heralded_cnot_no_leak`,
+      `heralded_cnot_anywhere`) — over fields of characteristic 0 (it goes through the composition theorem);
+      every one-qubit gate is heralded (`one_qubit_gate_never_leaks`);
+    * circuits WITH post-processed (leaky) gates: if every leaky two-qubit gate's qubits are separated by a set
+      of qubits closed under all later gates (`CutOk`; executable check `cutCheck`, sound by `cut_check_sound`),
+      the leak-and-return condition holds at every step and the circuit implements the product with the product
+      of the scalars (`leaky_circuit_implements_product`, `converted_circuit_implements_product`);
+    * the converter's mode mapping is a `Placement` for all qubit counts / pairs / gate positions
+      (`converter_layout_ok`, `converter_mode_map_is_placement`, `converter_gates_share_no_herald`), and a placed
+      gate is an admissible step (`placed_gate_is_step`).
   What is still NOT proved (validated per instance by the correspondence, see manifest.d/C20.json):
-    * the other multi-photon catalog matrices (heralded CNOT, KLM CNOT, post-processed CCZ, Toffoli, the n-qubit
-      controlled rotations for all angles, optimiser-fitted one-qubit gates);
-    * that a *forest* of post-processed CNOTs meets the leak-and-return condition of `fock_comp_tables` at every
-      step of a whole circuit (the global photon-number argument; only the one-step facts
-      `photons_on_support_conserved`, `untouched_bad_pair_never_returns` and the reduction
-      `leak_return_condition_separated` are proved) — for circuits of *heralded* gates nothing is missing;
-    * that the mode mapping the converter computes is a `Placement` (it is compared with the model's
-      `createModeMap`/`planHeralds` by the correspondence, `mode_map_spec` is the proved part).
+    * the other multi-photon catalog matrices (KLM CNOT — algebraic but not done —, post-processed CCZ, Toffoli, the
+      n-qubit controlled rotations for all angles, optimiser-fitted one-qubit gates);
+    * that the LABELLING the converter computes always passes `cutCheck` (a purely combinatorial statement about
+      `_find_max_ralph_pairs`' candidate order: the post-processed CNOTs are the lexicographically first maximal
+      forest of the REVERSED CNOT list, so every heralded CNOT that follows a post-processed one has its qubits
+      connected by later post-processed CNOTs / other two-qubit gates).  The driver evaluates `cutCheck` on the
+      labels the REAL code produced for every converted circuit and on every enumerated CNOT sequence;
+    * the `PERM` of a SWAP as a step (its `Step.Ok` is a hypothesis of `converted_circuit_implements_product`).
 -/
 import PercevalModel.Lemmas.C20
 import PercevalModel.Lemmas.C20Gates
@@ -53,6 +65,7 @@ import PercevalModel.Lemmas.C20Ryser
 import PercevalModel.Lemmas.C20Place
 import PercevalModel.Lemmas.C20HeraldedCz
 import PercevalModel.Lemmas.C20Dfs
+import PercevalModel.Lemmas.C20Catalog
 import Mathlib.Analysis.Real.Sqrt
 import Mathlib.Data.Complex.Basic
 
@@ -732,6 +745,136 @@ theorem ryserGateAmp_eq_spec [CommRing R] {m : ℕ} (U : Matrix (Fin m) (Fin m) 
     (bo bi : List Bool) : ryserGateAmp U L ps bo bi = gateAmp U L ps bo bi :=
   ryserGateAmp_eq_gateAmp U L ps bo bi
 
+
+/-! ## Round 4
+
+### (5) the heralded CNOT (Knill) of the catalog, exactly
+(`Lemmas/C20HeraldedCnot.lean`; `heralded_cnot.py`: `BS.H()` on the data pair, the heralded CZ circuit, `BS.H()` on
+the data pair; same layout and the same five relations as the heralded CZ).  Obtained from the heralded CZ by the
+composition theorem for heralded gates, hence stated for fields of characteristic 0 (ℝ, ℂ). -/
+
+/-- a circuit that is the identity outside the two rails of ONE qubit never leaves the logical space: every
+one-qubit gate of a converted processor is a heralded gate -/
+theorem one_qubit_gate_never_leaks [CommRing R] (L : Layout) (hok : L.ok = true) (p : ℕ) (hp : p ∈ L.qubits)
+    {A : Matrix (Fin L.m) (Fin L.m) R} (hA : LocalOn [p, p + 1] A) : NoLeak L A :=
+  noLeak_of_localOn_pair L hok p hp hA
+
+/-- **heralded CNOT**: logical table exactly `c • CNOT` with `27·c² = 2` (success probability `2/27` on every
+logical input), no post-selection -/
+theorem heralded_cnot_exact [Field R] [CharZero R] (r h c2 s2 : R) (hr : 3 * r * r = 1) (hh : 2 * h * h = 1)
+    (hc : 6 * c2 * c2 = 3 + 6 * h * r) (hs : 6 * s2 * s2 = 3 - 6 * h * r) (hcs : 2 * c2 * s2 = r) :
+    ∃ c : R, 27 * (c * c) = 2 ∧
+      (gateTable (hcnotCircuit r h c2 s2) hczLayout PS.tt : Matrix (Fin 4) (Fin 4) R) = c • cnotGate :=
+  ⟨2 * h * r * (r * r), hcz_scalar_sq r h hr hh, hcnot_table r h c2 s2 hr hh hc hs hcs⟩
+
+/-- **the heralded CNOT is heralded**: with both heralds satisfied it reaches no non-logical state -/
+theorem heralded_cnot_no_leak [Field R] [CharZero R] (r h c2 s2 : R) (hr : 3 * r * r = 1) (hh : 2 * h * h = 1)
+    (hc : 6 * c2 * c2 = 3 + 6 * h * r) (hs : 6 * s2 * s2 = 3 - 6 * h * r) (hcs : 2 * c2 * s2 = r) :
+    NoLeak hczLayout (hcnotCircuit r h c2 s2) :=
+  hcnot_noLeak r h c2 s2 hr hh hc hs hcs
+
+/-- **the heralded CNOT on any two qubits of any processor**: local, heralded, table
+`c • (CNOT on the selected qubits ⊗ identity)` — a `GateImpl` accepted by `heralded_circuit_implements_product` -/
+theorem heralded_cnot_anywhere [Field R] [CharZero R] {L : Layout} (P : Placement hczLayout L) (hok : L.ok = true)
+    (hhL : ∀ p ∈ L.heralds, p.2 ≤ 1) (r h c2 s2 : R) (hr : 3 * r * r = 1) (hh : 2 * h * h = 1)
+    (hc : 6 * c2 * c2 = 3 + 6 * h * r) (hs : 6 * s2 * s2 = 3 - 6 * h * r) (hcs : 2 * c2 * s2 = r)
+    (ps : PS) (hps : ∀ b : List Bool, b.length = L.qubits.length → ps.eval (encode L b) = true) :
+    (⟨List.ofFn fun a : Fin hczLayout.m => (P.f a).val, PM.place P.g (hcnotCircuit r h c2 s2),
+      placedGate P (twoQubit cnotEntry), 2 * h * r * (r * r)⟩ : GateImpl L R).Ok ps :=
+  hcnot_placed_ok P hok hhL r h c2 s2 hr hh hc hs hcs ps hps
+
+/-! ### (6) circuits with post-processed (leaky) gates: the global photon-number argument
+(`Lemmas/C20Forest.lean`).  `Step`: support, touched qubit pairs, matrix, logical gate, scalar, leaky flag.
+`Step.Ok`: local, table `c • G`, heralded unless leaky, support meets only its own qubit pairs.  `CutOk`: every
+leaky step acts on two qubits `a, b` and some set `A ∋ a`, `A ∌ b` of qubits is closed under (each later step's
+qubits all inside or all outside) every LATER step — i.e. `a` and `b` are not connected by what follows. -/
+
+/-- a gate conserves the photons on every set of qubits it is closed under -/
+theorem photons_on_closed_set_conserved [CommRing R] {L : Layout} (hok : L.ok = true) (g : Step L R) (hg : g.Ok)
+    (A : ℕ → Bool) (hA : g.respects A) (u t : List ℕ) (hu : u.length = L.m) (ht : t.length = L.m)
+    (huh : heraldsOk L.heralds u = true) (hth : heraldsOk L.heralds t = true)
+    (hne : pamp g.U u t ≠ 0) : cutSum L A t = cutSum L A u :=
+  cutSum_conserved hok g hg A hA u t hu ht huh hth hne
+
+/-- what a leaky two-qubit gate leaks shows on every set of qubits that separates its two qubits -/
+theorem leak_visible_on_separating_set [CommRing R] {L : Layout} (hok : L.ok = true) (g : Step L R) (hg : g.Ok)
+    (a b : ℕ) (A : ℕ → Bool) (hQ : g.Q = [a, b]) (ha : A a = true) (hb : A b = false) (u t : List ℕ)
+    (hu : u.length = L.m) (ht : t.length = L.m) (huh : heraldsOk L.heralds u = true)
+    (hth : heraldsOk L.heralds t = true) (hul : isLogical L u = true) (htl : isLogical L t = false)
+    (hne : pamp g.U u t ≠ 0) : cutSum L A t ≠ (L.qubits.filter A).length :=
+  cutSum_ne_of_leak hok g hg a b A hQ ha hb u t hu ht huh hth hul htl hne
+
+/-- **forest sufficiency**: under `CutOk` the leak-and-return condition holds at every step, so the whole circuit
+has the logical table `(∏ cₖ) • (Gₙ ⋯ G₁)`; and every herald-satisfying output it reaches from a logical input
+is logical or has a wrong photon count on some set of qubit pairs -/
+theorem leaky_circuit_implements_product [Field R] [CharZero R] (L : Layout) (hok : L.ok = true)
+    (hh : ∀ p ∈ L.heralds, p.2 ≤ 1) (ps : PS)
+    (hps : ∀ b : List Bool, b.length = L.qubits.length → ps.eval (encode L b) = true)
+    (gs : List (Step L R)) (hg : ∀ g ∈ gs, g.Ok) (hcut : CutOk gs)
+    (hp : gs.Pairwise (fun g g' => ∀ h ∈ L.heralds, h.1 ∉ g.S ∨ h.1 ∉ g'.S)) :
+    gateTable (PM.C02.circuitMatrix (gs.map (·.U))) L ps =
+        ((gs.map (·.c)).prod) • gs.foldl (fun M g => g.G * M) 1 ∧
+      ∀ bi : List Bool, bi.length = L.qubits.length → ∀ u : List ℕ, u.length = L.m →
+        heraldsOk L.heralds u = true → pamp (PM.C02.circuitMatrix (gs.map (·.U))) (encode L bi) u ≠ 0 →
+        isLogical L u = true ∨ ∃ A : ℕ → Bool, cutSum L A u ≠ (L.qubits.filter A).length :=
+  forest_circuit_implements L hok hh ps hps gs hg hcut hp
+
+/-- the executable check run by the driver on the shape of every converted circuit is sound for `CutOk` -/
+theorem cut_check_sound {L : Layout} (gs : List (Step L R))
+    (h : cutCheck (gs.map fun g => (g.Q, g.leaky)) = true) : CutOk gs :=
+  cutCheck_sound gs h
+
+/-- **a converted circuit** — one-qubit gates (any 2×2 matrix), heralded CZ, heralded CNOT, post-processed CNOT
+on arbitrary placements, other heralded steps given with their proof (SWAP) — **implements the product of its
+gates** with the product of the scalars `1`, `2hr·r²`, `r²`, when `cutCheck` accepts its shape and no herald mode
+is shared by two gates -/
+theorem converted_circuit_implements_product [Field R] [CharZero R] {L : Layout} (hok : L.ok = true)
+    (hhL : ∀ p ∈ L.heralds, p.2 ≤ 1) (ps : PS)
+    (hps : ∀ b : List Bool, b.length = L.qubits.length → ps.eval (encode L b) = true)
+    (r h c2 s2 : R) (hr : 3 * r * r = 1) (hh : 2 * h * h = 1) (hc : 6 * c2 * c2 = 3 + 6 * h * r)
+    (hs : 6 * s2 * s2 = 3 - 6 * h * r) (hcs : 2 * c2 * s2 = r)
+    (gs : List (ConvGate L R)) (hgood : ∀ g ∈ gs, g.Good)
+    (hcut : cutCheck ((convSteps r h c2 s2 gs).map fun s => (s.Q, s.leaky)) = true)
+    (hp : (convSteps r h c2 s2 gs).Pairwise (fun g g' => ∀ hd ∈ L.heralds, hd.1 ∉ g.S ∨ hd.1 ∉ g'.S)) :
+    gateTable (PM.C02.circuitMatrix ((convSteps r h c2 s2 gs).map (·.U))) L ps =
+      (((convSteps r h c2 s2 gs).map (·.c)).prod) •
+        (convSteps r h c2 s2 gs).foldl (fun M g => g.G * M) 1 :=
+  conv_circuit_implements hok hhL ps hps r h c2 s2 hr hh hc hs hcs gs hgood hcut hp
+
+/-! ### (7) the mode mapping the converter computes is a `Placement`
+(`Lemmas/C20ModeMap.lean`, `Model/C20Conv.lean`: `convLayout`, `gateModes`) -/
+
+/-- the layout of a converted processor (qubit `k` on modes `2k, 2k+1`, herald modes appended) is sane -/
+theorem converter_layout_ok (n : ℕ) (hv : List ℕ) : (convLayout n hv).ok = true := convLayout_ok n hv
+
+/-- **`_create_mode_map` + the appended herald modes form a `Placement`** of the gate's own six-mode layout,
+for every qubit count, every two distinct qubits, every gate position `j` (herald value `v`) -/
+theorem converter_mode_map_is_placement (n : ℕ) (hv : List ℕ) (a b j v : ℕ) (ha : a < n) (hb : b < n)
+    (hab : a ≠ b) (hj : 2 * j + 1 < hv.length) (h0 : hv.getD (2 * j) 0 = v) (h1 : hv.getD (2 * j + 1) 0 = v) :
+    ∃ P : Placement ⟨6, [0, 2], [(4, v), (5, v)]⟩ (convLayout n hv),
+      (List.ofFn fun k : Fin 6 => (P.f k).val) = gateModes n a b j ∧ P.sel = [a, b] ∧
+      (createModeMap (2 * a) (2 * b)).map Prod.fst = (gateModes n a b j).take 4 :=
+  ⟨gatePlacement n hv a b j v ha hb hab hj h0 h1, gatePlacement_support n hv a b j v ha hb hab hj h0 h1, rfl, rfl⟩
+
+/-- two catalog gates (different positions) share no herald mode; gates on qubit modes only touch none -/
+theorem converter_gates_share_no_herald (n : ℕ) (hv : List ℕ) (a b j a' b' j' : ℕ) (ha : a < n) (hb : b < n)
+    (ha' : a' < n) (hb' : b' < n) (hjj : j ≠ j') :
+    ∀ h ∈ (convLayout n hv).heralds, h.1 ∉ gateModes n a b j ∨ h.1 ∉ gateModes n a' b' j' :=
+  gateModes_heralds_disjoint n hv a b j a' b' j' ha hb ha' hb' hjj
+
+theorem converter_qubit_modes_no_herald (n : ℕ) (hv : List ℕ) (S : List ℕ) (hS : ∀ k ∈ S, k < 2 * n) :
+    ∀ h ∈ (convLayout n hv).heralds, h.1 ∉ S :=
+  qubit_modes_no_herald n hv S hS
+
+/-- **a gate placed by any placement is an admissible step** of `leaky_circuit_implements_product` -/
+theorem placed_gate_is_step [CommRing R] {Lg L : Layout} (P : Placement Lg L) (hokg : Lg.ok = true)
+    (hok : L.ok = true) (hh : ∀ p ∈ L.heralds, p.2 ≤ 1) (B : Matrix (Fin Lg.m) (Fin Lg.m) R)
+    (G : List Bool → List Bool → R) (c : R) (leaky : Bool)
+    (hB : ∀ bo bi : List Bool, bo.length = Lg.qubits.length → bi.length = Lg.qubits.length →
+      gateAmp B Lg PS.tt bo bi = c * G bo bi)
+    (hN : leaky = false → NoLeak Lg B) : (placedStep P B G c leaky).Ok :=
+  placedStep_ok P hokg hok hh B G c leaky hB hN
+
 /-! ## non-vacuity -/
 
 example : Implements (1 : Matrix (Fin 2) (Fin 2) ℚ) ((3 : ℚ) • 1) := ⟨3, rfl⟩
@@ -838,5 +981,21 @@ example : isCyclic (adjList 3 [(0, 1), (1, 2), (2, 0)]) 3 = true ∧ isCyclic (a
 
 -- Ryser on a concrete 3×3 matrix
 example : permRyser (fun i j => ((3 * i + j + 1 : ℕ) : ℤ)) [0, 1, 2] [0, 1, 2] = 450 := by decide
+
+
+-- round 4.  `CutOk` / `cutCheck`: accepted shape (post-processed CNOT on qubits 0,1 = first modes 0,2, then a
+-- heralded gate on qubits 1,2 and a one-qubit gate) and a rejected one (a later gate on the same pair)
+example : cutCheck [([0, 2], true), ([2, 4], false), ([0], false)] = true ∧
+    cutCheck [([0, 2], true), ([2, 4], false), ([4, 0], false)] = false ∧
+    cutCheck [([0, 2], true), ([0, 2], false)] = false := by decide
+
+-- the converter's shape of `cx(0,1); cz(1,2)` (labels of the repaired labelling) passes the check
+example : cutCheck (convShape true [⟨"cx", [0, 1]⟩, ⟨"cz", [1, 2]⟩]
+    (labelCnots true [⟨"cx", [0, 1]⟩, ⟨"cz", [1, 2]⟩])) = true := by decide +kernel
+
+-- a placement of the converter: 3 qubits, second catalog gate = post-processed CNOT with control 2, data 0
+example : gateModes 3 2 0 1 = [4, 5, 0, 1, 8, 9] ∧ (convLayout 3 [1, 1, 0, 0]).ok = true := by decide
+
+-- the five relations of the heralded CNOT are those of the heralded CZ (`heralded_cz_params_exist`)
 
 end PM.C20
